@@ -2,6 +2,7 @@ package an
 
 import (
 	"go/ast"
+	"go/constant"
 	"go/token"
 	"go/types"
 
@@ -368,4 +369,103 @@ func Implied(cond ast.Expr, truth bool, holds func(atom ast.Expr, truth bool) bo
 		}
 	}
 	return holds(cond, truth)
+}
+
+// IntFact is what one edge of a comparison `E op c` (c an integer constant, on
+// either side) says about E.
+type IntFact struct {
+	Lo, Hi *int64 // inclusive bounds when known
+	Neq    *int64 // E != Neq
+}
+
+// Excludes reports whether the fact rules out E == v.
+func (f IntFact) Excludes(v int64) bool {
+	return (f.Lo != nil && *f.Lo > v) || (f.Hi != nil && *f.Hi < v) || (f.Neq != nil && *f.Neq == v)
+}
+
+// AtMost reports whether the fact implies E <= v.
+func (f IntFact) AtMost(v int64) bool { return f.Hi != nil && *f.Hi <= v }
+
+// AtLeast reports whether the fact implies E >= v.
+func (f IntFact) AtLeast(v int64) bool { return f.Lo != nil && *f.Lo >= v }
+
+// IntCompare interprets cond (taken with the given truth) as a comparison of an
+// expression satisfying isE with an integer constant. ok is false when cond is
+// not of that shape.
+func IntCompare(info *types.Info, cond ast.Expr, truth bool, isE func(ast.Expr) bool) (IntFact, bool) {
+	be, isB := ast.Unparen(cond).(*ast.BinaryExpr)
+	if !isB {
+		return IntFact{}, false
+	}
+	constOf := func(e ast.Expr) (int64, bool) {
+		tv := info.Types[e]
+		if tv.Value == nil {
+			return 0, false
+		}
+		v, exact := constant.Int64Val(constant.ToInt(tv.Value))
+		return v, exact && constant.ToInt(tv.Value).Kind() == constant.Int
+	}
+	op := be.Op
+	var c int64
+	switch {
+	case isE(be.X):
+		v, ok := constOf(be.Y)
+		if !ok {
+			return IntFact{}, false
+		}
+		c = v
+	case isE(be.Y):
+		v, ok := constOf(be.X)
+		if !ok {
+			return IntFact{}, false
+		}
+		c = v
+		// c op E  ==  E op' c
+		switch op {
+		case token.LSS:
+			op = token.GTR
+		case token.LEQ:
+			op = token.GEQ
+		case token.GTR:
+			op = token.LSS
+		case token.GEQ:
+			op = token.LEQ
+		}
+	default:
+		return IntFact{}, false
+	}
+	if !truth {
+		switch op {
+		case token.EQL:
+			op = token.NEQ
+		case token.NEQ:
+			op = token.EQL
+		case token.LSS:
+			op = token.GEQ
+		case token.LEQ:
+			op = token.GTR
+		case token.GTR:
+			op = token.LEQ
+		case token.GEQ:
+			op = token.LSS
+		default:
+			return IntFact{}, false
+		}
+	}
+	p := func(v int64) *int64 { return &v }
+	switch op {
+	case token.EQL:
+		return IntFact{Lo: p(c), Hi: p(c)}, true
+	case token.NEQ:
+		return IntFact{Neq: p(c)}, true
+	case token.LSS:
+		return IntFact{Hi: p(c - 1)}, true
+	case token.LEQ:
+		return IntFact{Hi: p(c)}, true
+	case token.GTR:
+		return IntFact{Lo: p(c + 1)}, true
+	case token.GEQ:
+		return IntFact{Lo: p(c)}, true
+	}
+	return IntFact{}, false
 }
